@@ -1,6 +1,11 @@
 """Which worlds decide which property, and the static texts that go into evidence."""
 
 PLAN = {
+    "C01": [{"world": "exec", "share": 1, "probes": ["block-with-fees", "zero-fee-block", "no-coinbase-block-with-fees", "voting-reward-paid"]}],
+    "C02": [{"world": "exec", "share": 1, "probes": ["block-with-error-and-success-receipts", "voting-reward-paid"]}],
+    "C03": [{"world": "exec", "share": 1, "probes": ["error-receipt", "error-receipt-fee-delegation"]}],
+    "C04": [{"world": "exec", "share": 1, "probes": []}],
+    "C14": [{"world": "exec", "share": 1, "probes": ["byzantine-payload-admitted"]}],
     "C10": [{"world": "store-trie", "share": 1,
              "probes": ["delete-absent-only", "trie-emptied", "died-in-commit", "historical-root-read"]}],
     "C11": [{"world": "store-proof", "share": 1,
@@ -11,7 +16,16 @@ PLAN = {
 
 LEVEL = {}
 
+_EXEC = ("one case = a seeded run of the EXEC world: swarm config (public/private fee regime, hardfork heights so that versions 0..5 occur inside a run, coinbase none/fresh/sender, "
+         "vault, 3-8 accounts, 1-2 validators) and a step list of client submissions (transfers incl. to new accounts/names/self, stake/unstake/voteBP/voteDAO, name create/update, "
+         "stub-VM deploy/call/fee-delegation scripts that write storage, send coin, emit events, charge fees and fail at run time, nonce gaps/dups) and block steps "
+         "(real mempool -> real block factory/tx executor -> producer commit -> delivery to fresh validators). distinct = distinct (block no, #txs, #error receipts, fork version, coinbase?) digests; non-trivial = at least one block carried transactions. ")
 RULES = {
+    "C01": _EXEC + "Oracle: independent full-state walk (trie key walk + raw store) before/after every block on producer and validator: sum of balances equal, or minus the receipts' fees when the header has no coinbase.",
+    "C02": _EXEC + "Oracle: every produced block is re-verified r times (seeded sibling-update order, re-randomised map order) and then connected by fresh validators; best block, state root, stored receipts and the full-state walk must be identical to the producer's.",
+    "C03": _EXEC + "Oracle: a lab re-executes each block transaction by transaction (each on its own committed block state) and diffs the full state (all accounts and storage slots) around every tx: ERROR => exactly {payer -fee, sender nonce}; SUCCESS => only the sender nonce moves, sum of balance deltas = -fee, plain transfers move exactly the amount; txs one by one + reward must reach the block's root.",
+    "C04": _EXEC + "Plus an adversary: wrong-key signatures, foreign chain-id hashes (other chain / other fork version), replays of included txs, bodies altered after signing, reused nonces. Oracle: none is admitted or included; final history check on every node: executed nonces 1,2,3.. per account, no hash twice, every executed tx verifies under its sender key and carries the block's chain-id hash.",
+    "C14": _EXEC + "Plus a Byzantine client: governance payloads from a JSON grammar (missing/extra/wrongly typed/null/nested args, huge numbers, duplicate keys, unknown commands) to aergo.system/name/enterprise and txs with arbitrary field lengths. Oracle: admission never panics; after admitting anything the producer still produces and validators still validate without panic.",
     "C11": "one case = a seeded history of account puts / contract storage sessions / commits on the real StateDB, interleaved with proof queries (account, contract account, contract variable; present, absent-empty-subtree, absent-foreign-leaf; plain and compressed; current and historical roots) whose answer passes through a corrupting channel (10 mutation kinds incl. transplant to another key/root/encoding and relabelling inclusion as absence); distinct = distinct committed roots; non-trivial = at least one corrupted proof was judged",
     "C12": "one case = a seeded history of account puts, contract sessions (open, set/delete, nested handle savepoints, stage or abandon), block-level snapshot / rollback to any earlier snapshot, commit (Update+Commit, new StateDB) and reopen; every read is compared with a model that keeps an explicit snapshot stack, every committed root with a fresh state built from the surviving writes; distinct = distinct committed roots; non-trivial = at least one rollback or restart",
     "C10": "one case = one seeded history of sorted update/delete batches (one Update+Commit per batch) over a key universe built to collide on long prefixes, "
@@ -33,7 +47,18 @@ NA = {
     "C20": "read-only contract execution is a statement about every path through the LuaJIT host callbacks (contract/vm_callback.go and the C modules); those sources cannot be built or run in this sandbox (LuaJIT absent, replaced by a stub) and the property has no schedule, clock, fault or interleaving in it, so deterministic simulation has nothing real to run; it needs source-level control-flow analysis, a different technique family (DESIGN.md section 10)",
 }
 
+_EXECNOTE = "trusted: the harness node wiring (fake ComponentHub adapters replace the actor mailboxes), the VM stub, the full-state walker; sampling only"
 MAN = {
+    "C01": {"text": "seeded search over block histories of the real mempool/block-factory/executor/validator pipeline under all fee regimes and coinbase settings, with an independent full-state balance sum before and after every executed block on producer and validator.", "ref": "5 C01", "note": _EXECNOTE,
+            "technique": "deterministic simulation: seeded transaction/block histories over a swarm of configurations, conservation invariant checked after every block by an independent state walker"},
+    "C02": {"text": "seeded search over block histories; every produced block is re-executed several times under seeded sibling-update order and by fresh validator nodes from the network path; roots, receipts and full-state dumps must be byte-identical.", "ref": "5 C02", "note": _EXECNOTE,
+            "technique": "deterministic simulation: seeded histories + seeded schedule of trie sibling updates, cross-node and repeated-execution agreement oracle"},
+    "C03": {"text": "seeded search over block histories with failure injected at every phase (rejected, run-time failure after partial writes, success); a lab applies each transaction alone with a full-state diff and requires the outcome trichotomy and that sequential application reaches the block's root.", "ref": "5 C03", "note": _EXECNOTE + "; blocks that register/update a name and also use a name are not judged (name resolution reads the block-start state by design)",
+            "technique": "deterministic simulation: seeded histories with injected transaction failures, per-transaction full-state diff against the specified outcome"},
+    "C04": {"text": "seeded search with an adversarial client (forged signature, foreign chain id, replay, altered body, reused nonce) against pool admission and block production, plus a history check of executed nonces/hashes/signatures/chain ids on every node.", "ref": "5 C04", "note": _EXECNOTE,
+            "technique": "deterministic simulation: seeded adversarial client workload, history check over the recorded main chain"},
+    "C14": {"text": "seeded search with a Byzantine client over governance payload grammar and raw field lengths; no panic in admission, production or validation, and the producer keeps producing. Found and fixed three genuine crash defects.", "ref": "5 C14", "note": _EXECNOTE,
+            "technique": "deterministic simulation: seeded Byzantine-client input generation through the real admission -> production -> validation pipeline, crash oracle"},
     "C11": {"text": "seeded search over state histories and proof queries served by the real StateDB to a light client through a corrupting/transplanting channel; honest proofs must be accepted by the repo verifier and by an independent re-implementation, and no corrupted proof may be accepted for a statement that is false in the model. Sampling, not proof; found and fixed one genuine verifier defect.",
             "ref": "5 C11", "note": "trusted: the state model, the independent verifier (60 lines, written from the construction), sha256; a verifier panic on a malformed proof counts as rejection",
             "technique": "deterministic simulation: seeded histories + message-corruption fault injection between full node and light client, independent verifier as oracle"},
